@@ -161,6 +161,24 @@ func dirNext(c *Ctx, fn *ssa.Function) {
 		}
 		return t.Len() - 1
 	}
+	// ... or a helper of the module that answers (parsed message, ok): ok is true exactly for the successful parse of
+	// the bytes read from the path it is given
+	okHelpers := map[*ssa.Function]bool{}
+	okIndex := func(call *ssa.Call) int {
+		h := call.Call.StaticCallee()
+		if h == nil || call.Call.IsInvoke() || !c.P.isModuleFn(h) || len(h.Blocks) == 0 {
+			return -1
+		}
+		good, seen := okHelpers[h]
+		if !seen {
+			good = readAndParseHelper(c, h)
+			okHelpers[h] = good
+		}
+		if !good {
+			return -1
+		}
+		return 1
+	}
 	nPaths := 0
 	var problems []string
 	sawReturnValue, sawSkip, sawReturnNil := false, false, false
@@ -200,7 +218,7 @@ func dirNext(c *Ctx, fn *ssa.Function) {
 						}
 					}
 				case *ssa.Call:
-					if errIndex(x) >= 0 {
+					if errIndex(x) >= 0 || okIndex(x) >= 0 {
 						steps = append(steps, x)
 					}
 				}
@@ -210,6 +228,18 @@ func dirNext(c *Ctx, fn *ssa.Function) {
 				after = l.Header
 			}
 			if cond, val, ok := edgeTaken(path, i, after); ok {
+				if un, isNot := cond.(*ssa.UnOp); isNot && un.Op == token.NOT {
+					cond, val = un.X, !val
+				}
+				if ex, isEx := cond.(*ssa.Extract); isEx {
+					if cc, isCall := ex.Tuple.(*ssa.Call); isCall && errIndex(cc) < 0 && ex.Index == okIndex(cc) {
+						if val {
+							succeeded[cc] = true
+						} else {
+							failed[cc] = true
+						}
+					}
+				}
 				if bo, isB := cond.(*ssa.BinOp); isB {
 					// emptiness test
 					if lc, isCall := bo.X.(*ssa.Call); isCall && isBuiltin(lc, "len") && isLoadOfFileNames(lc.Call.Args[0], recv) {
@@ -300,7 +330,7 @@ func dirNext(c *Ctx, fn *ssa.Function) {
 					}
 				}
 				// the bytes parsed are the bytes read: ParseRealtime(os.ReadFile(<path from the front name>)#0, ...)#0
-				if derives && strings.Contains(e, "ParseRealtime(os.ReadFile(") {
+				if derives && (strings.Contains(e, "ParseRealtime(os.ReadFile(") || okIndex(fc) >= 0) {
 					okVal = true
 				}
 			}
@@ -372,6 +402,97 @@ func dirNext(c *Ctx, fn *ssa.Function) {
 		strings.Join(dedup(problems), "; "))
 	// G4: the loop is a consumer loop: every trip around it removes one element (established above) and it exits on empty
 	c.Check(len(problems) == 0, "G4", fname, "retry loop terminates", pos, "consumer loop: each iteration shortens the list by one, exit on empty", "loop variant (one removal per iteration, exit on empty) not established")
+}
+
+// readAndParseHelper: h(path) (msg, ok): every returned tuple has a constant ok; with ok == true the message is the
+// result of ParseRealtime applied to the bytes os.ReadFile returned for a path derived from h's parameter, and the
+// return is dominated by the success edges of both error tests; with ok == false the return is dominated by the
+// failure edge of one of the two (so no readable, parseable file is reported as bad).
+func readAndParseHelper(c *Ctx, h *ssa.Function) bool {
+	res := h.Signature.Results()
+	if res.Len() != 2 || len(h.Params) == 0 {
+		return false
+	}
+	if bt, ok := res.At(1).Type().Underlying().(*types.Basic); !ok || bt.Kind() != types.Bool {
+		return false
+	}
+	if len(naturalLoops(h)) > 0 {
+		return false
+	}
+	params := map[ssa.Value]bool{}
+	for _, pa := range h.Params {
+		params[pa] = true
+	}
+	errEdge := func(blk *ssa.BasicBlock, call *ssa.Call, wantFail bool) bool {
+		for _, ce := range dominatingConds(blk) {
+			bo, ok := ce.Cond.(*ssa.BinOp)
+			if !ok || !isNilConst(bo.Y) {
+				continue
+			}
+			ex, ok := bo.X.(*ssa.Extract)
+			if !ok || ex.Tuple != ssa.Value(call) || ex.Index != 1 {
+				continue
+			}
+			fails := (bo.Op == token.NEQ) == ce.Val
+			if fails == wantFail {
+				return true
+			}
+		}
+		return false
+	}
+	sawTrue := false
+	for _, blk := range h.Blocks {
+		ret, ok := blk.Instrs[len(blk.Instrs)-1].(*ssa.Return)
+		if !ok {
+			continue
+		}
+		for _, r := range ret.Results {
+			if phi, isPhi := r.(*ssa.Phi); isPhi && phi.Block() == blk {
+				return false // merged returns: not the plain early-return form
+			}
+		}
+		k, isC := ret.Results[1].(*ssa.Const)
+		if !isC {
+			return false
+		}
+		okv, _ := constBool(k)
+		var read, parse *ssa.Call
+		for _, b2 := range h.Blocks {
+			for _, in := range b2.Instrs {
+				if call, isCall := in.(*ssa.Call); isCall {
+					switch calleeName(call) {
+					case "os.ReadFile":
+						read = call
+					case modPath + ".ParseRealtime":
+						parse = call
+					}
+				}
+			}
+		}
+		if read == nil || parse == nil {
+			return false
+		}
+		if okv {
+			ex, isEx := ret.Results[0].(*ssa.Extract)
+			if !isEx || ex.Tuple != ssa.Value(parse) || ex.Index != 0 {
+				return false
+			}
+			bytesArg, isEx2 := parse.Call.Args[0].(*ssa.Extract)
+			if !isEx2 || bytesArg.Tuple != ssa.Value(read) || bytesArg.Index != 0 {
+				return false
+			}
+			if !derivedFrom(read.Call.Args[0], params, true) {
+				return false
+			}
+			if !errEdge(blk, read, false) || !errEdge(blk, parse, false) {
+				return false
+			}
+			sawTrue = true
+		} else if !errEdge(blk, read, true) && !errEdge(blk, parse, true) {
+			return false
+		}
+	}
+	return sawTrue
 }
 
 func dedup(s []string) []string {
@@ -509,20 +630,41 @@ func dirCtor(c *Ctx, fn *ssa.Function) {
 	})
 	_ = nPaths
 	c.Check(len(problems) == 0, "DIR", fname, "every entry listed", pos, "each directory entry's Name() is appended exactly once", strings.Join(dedup(problems), "; "))
-	// the list is sorted after the loop, before every successful return, and what the source keeps is that sorted list
-	isList := func(v ssa.Value) bool {
-		if src != nil {
-			if ld, ok := v.(*ssa.UnOp); ok {
-				if fa, ok := ld.X.(*ssa.FieldAddr); ok && fa.X == src && fieldName(fa.X.Type(), fa.Field) == filesField(fa.X.Type()) {
-					return true
-				}
-			}
+	// the list is sorted after the loop, before every successful return, and what the source keeps is that sorted list.
+	// The list is one backing array under several names: the loop-carried local slice, the slice filled by index, and
+	// the source's field once one of these was stored there (sort.Strings sorts in place).
+	isFieldAddr := func(v ssa.Value) bool {
+		fa, ok := v.(*ssa.FieldAddr)
+		return ok && typeName(fa.X.Type()) == "journal.DirectoryGtfsrtSource" && fieldName(fa.X.Type(), fa.Field) == filesField(fa.X.Type())
+	}
+	var isList func(v ssa.Value, d int) bool
+	isList = func(v ssa.Value, d int) bool {
+		if d > 4 || v == nil {
 			return false
+		}
+		if ld, ok := v.(*ssa.UnOp); ok && ld.Op == token.MUL && isFieldAddr(ld.X) {
+			return true
 		}
 		if filled != nil && v == filled {
 			return true
 		}
-		return acc != nil && v == ssa.Value(acc)
+		if acc != nil && v == ssa.Value(acc) {
+			return true
+		}
+		if phi, ok := v.(*ssa.Phi); ok {
+			n := 0
+			for _, ed := range phi.Edges {
+				if isNilConst(ed) {
+					continue
+				}
+				if !isList(ed, d+1) {
+					return false
+				}
+				n++
+			}
+			return n > 0
+		}
+		return false
 	}
 	var sortCall *ssa.Call
 	for _, b := range fn.Blocks {
@@ -530,45 +672,57 @@ func dirCtor(c *Ctx, fn *ssa.Function) {
 			continue
 		}
 		for _, in := range b.Instrs {
-			if call, ok := in.(*ssa.Call); ok && calleeName(call) == "sort.Strings" && isList(call.Call.Args[0]) {
+			if call, ok := in.(*ssa.Call); ok && calleeName(call) == "sort.Strings" && isList(call.Call.Args[0], 0) {
 				sortCall = call
 			}
 		}
 	}
-	okSort := sortCall != nil && theLoop.Header.Dominates(sortCall.Block())
+	// after the loop: the sort cannot be followed by another trip through the loop, and no path from the loop to a
+	// successful return goes around it
+	okSort := sortCall != nil && !canReach(sortCall.Block(), theLoop.Header)
 	if okSort {
-		stored := src != nil
+		var keeps []*ssa.Store // stores of the list into the source's field, outside the loop
 		for _, b := range fn.Blocks {
-			// stores to the source's list after the sort: only the sorted local list itself (composite literal form)
 			for _, in := range b.Instrs {
 				st, ok := in.(*ssa.Store)
-				if !ok {
+				if !ok || !isFieldAddr(st.Addr) {
 					continue
 				}
-				fa, ok := st.Addr.(*ssa.FieldAddr)
-				if !ok || fieldName(fa.X.Type(), fa.Field) != filesField(fa.X.Type()) || typeName(fa.X.Type()) != "journal.DirectoryGtfsrtSource" {
-					continue
+				if theLoop.Blocks[b] && isAppendOf(st.Val, st.Addr) {
+					continue // the append form, checked above
 				}
-				if src == nil {
-					if isList(st.Val) && dominatesInstr(sortCall, st) {
-						stored = true
-					} else {
-						okSort = false
-					}
-				} else if dominatesInstr(sortCall, st) {
-					okSort = false
+				if isList(st.Val, 0) {
+					keeps = append(keeps, st)
+				} else if theLoop.Blocks[b] || canReach(theLoop.Header, b) {
+					okSort = false // during or after the listing loop the source is given some other list
 				}
+				// (a store that can only run before the loop is the initialisation of the field)
 			}
+		}
+		for _, b := range fn.Blocks {
 			ret, isRet := b.Instrs[len(b.Instrs)-1].(*ssa.Return)
 			if !isRet || isNilConst(ret.Results[0]) {
 				continue
 			}
-			if !dominatesInstr(sortCall, ret) {
+			if !(dominatesInstr(sortCall, ret) || !canReachAvoiding(theLoop.Header, b, sortCall.Block()) || sortCall.Block() == b) {
 				okSort = false
 			}
-		}
-		if !stored {
-			okSort = false
+			if sortCall.Block() == b && !dominatesInstr(sortCall, ret) {
+				okSort = false
+			}
+			if src == nil {
+				// local-slice form: the list reaches the source on every path from the loop to this return
+				kept := false
+				for _, st := range keeps {
+					if dominatesInstr(st, ret) || (st.Block() != b && !canReachAvoiding(theLoop.Header, b, st.Block())) {
+						kept = true
+					}
+				}
+				if !kept {
+					// or the source object is built from the list (composite literal stored before the return)
+					okSort = false
+				}
+			}
 		}
 	}
 	c.Check(okSort, "DIR", fname, "names sorted before the source is returned", pos, "sort.Strings(names) dominates every successful return, the source keeps that list and nothing reorders it afterwards", "file names are not sorted lexicographically on every path to the successful return")
